@@ -69,6 +69,10 @@ def check(ctx):
                         idxs.append(canon(f, kids(cur)[1], inline=False))
                     cur = f.parent(cur)
                 ok = idxs == idx_want and len(ws) == 1 and _once_every_path(f, ws)
+                if not ok and fld == '_piece_position' and idxs == ['piece', '++(_piece_count[piece])'] and len(ws) == 1:
+                    # list[count++] = square: the slot is the old count when the increment is the postfix one
+                    from props.C16fen import _post_inc
+                    ok = _post_inc(f) and _once_every_path(f, ws)
                 why = 'index %s' % idxs
             ctx.ob('C02.R1.sync', '%s:%s' % (nm, fld), ok,
                    '%s updates %s (%s) on every path' % (nm, fld, why or 'list/board cells'), site=f.loc(ws[0]) if ws else f.loc())
